@@ -1,6 +1,7 @@
 //! Randomised witness search: generates small histories step by step against the
 //! live state of the real contract and stops at the first oracle violation.
 
+use crate::gen2::{Scn2, P2};
 use crate::oracles::{OracleSel, ORACLES};
 use crate::run::{run_history, World};
 use ats_smart_contract::ask_order::{AskOrderClass, AskOrderStatus, AskOrderV1};
@@ -83,6 +84,8 @@ enum Profile {
     Fees,
     Nonlot,
     Markers,
+    /// the profiles of the second-generation generator (gen2.rs)
+    New(P2),
 }
 
 impl Profile {
@@ -93,9 +96,45 @@ impl Profile {
             "fees" => Some(Profile::Fees),
             "nonlot" => Some(Profile::Nonlot),
             "markers" => Some(Profile::Markers),
+            "auth" => Some(Profile::New(P2::Auth)),
+            "config" => Some(Profile::New(P2::Config)),
+            "admission" => Some(Profile::New(P2::Admission)),
+            "match" => Some(Profile::New(P2::Match)),
+            "migration" => Some(Profile::New(P2::Migration)),
+            "instantiate" => Some(Profile::New(P2::Instantiate)),
             _ => None,
         }
     }
+}
+
+/// Which profiles generate the steps an oracle speaks about (`--profile auto` cycles through
+/// them; `search --oracle all --profile P` evaluates the oracles registered for P).
+pub fn profiles_for(oracle: &str) -> &'static [&'static str] {
+    match oracle {
+        "authorization" => &["auth", "config", "default", "convertible", "markers"],
+        "config_change" => &["config", "auth", "default", "fees"],
+        "migration" => &["migration"],
+        "admission" => &["admission", "default", "markers", "fees"],
+        "match_eligibility" | "settlement" => {
+            &["match", "migration", "default", "convertible", "fees", "nonlot", "markers"]
+        }
+        "queries" => &["match", "config", "migration", "admission", "default"],
+        "attributes" => &["match", "auth", "admission", "default", "convertible", "fees", "nonlot"],
+        "instantiate_coherence" => &["instantiate"],
+        // the state-level oracles: every profile whose books are produced by requests only
+        _ => &[
+            "default", "convertible", "fees", "nonlot", "markers", "auth", "config", "admission",
+            "match",
+        ],
+    }
+}
+
+fn oracles_for_profile(profile: &str) -> Vec<String> {
+    ORACLES
+        .iter()
+        .filter(|o| profiles_for(o).contains(&profile))
+        .map(|o| o.to_string())
+        .collect()
 }
 
 const FEE_RATES: [&str; 6] = ["0.01", "0.1", "0.5", "0.005", "0.333", "1"];
@@ -149,7 +188,7 @@ impl Scn {
             Profile::Markers => rng.chance(70),
             // pure families: no convertible asks, so that D1-style hits do not mask them
             Profile::Fees | Profile::Nonlot => false,
-            Profile::Default => rng.chance(50),
+            Profile::Default | Profile::New(_) => rng.chance(50),
         };
         let (precision, increment) = match profile {
             Profile::Fees => (0u32, 1u128),
@@ -461,7 +500,7 @@ impl Scn {
             Profile::Fees => [50, 5, 10, 3, 5, 4, 8, 5, 4, 6, 4],
             Profile::Nonlot => [40, 6, 8, 8, 8, 8, 8, 2, 4, 4, 4],
             Profile::Markers => [35, 10, 8, 5, 5, 10, 10, 2, 5, 5, 8],
-            Profile::Default => [30, 12, 10, 6, 6, 10, 10, 4, 5, 5, 8],
+            Profile::Default | Profile::New(_) => [30, 12, 10, 6, 6, 10, 10, 4, 5, 5, 8],
         };
         if !can_match {
             w[0] = 0;
@@ -633,17 +672,22 @@ fn with_steps(header: &Value, steps: &[Value]) -> Value {
     h
 }
 
-/// First successful execute/migrate step after which a selected oracle fails.
+/// index used for "the instantiate step" in a hit
+const AT_INSTANTIATE: usize = usize::MAX;
+
+/// First step (successful, or refused where an oracle judges refusals) at which a selected
+/// oracle fails.
 fn first_failure(history: &Value, sel: &OracleSel) -> Option<(usize, String)> {
     let (_, res) = run_history(history, sel, |_| {}).ok()?;
+    if let Some(name) = res.instantiate.failing_oracles().into_iter().next() {
+        return Some((AT_INSTANTIATE, name));
+    }
     if !res.instantiate.ok {
         return None;
     }
     for s in &res.steps {
-        if s.ok && (s.kind == "execute" || s.kind == "migrate") {
-            if let Some(name) = s.failing_oracles().into_iter().next() {
-                return Some((s.index, name));
-            }
+        if let Some(name) = s.failing_oracles().into_iter().next() {
+            return Some((s.index, name));
         }
     }
     None
@@ -651,6 +695,8 @@ fn first_failure(history: &Value, sel: &OracleSel) -> Option<(usize, String)> {
 
 #[derive(Default)]
 struct Stats {
+    inst: u64,
+    inst_ok: u64,
     steps: u64,
     steps_ok: u64,
     by_kind: BTreeMap<String, (u64, u64)>,
@@ -664,22 +710,52 @@ fn one_iteration(
     sel: &OracleSel,
     stats: &mut Stats,
 ) -> Option<Hit> {
-    let mut scn = Scn::generate(rng, profile);
-    let header = scn.header();
+    enum G {
+        Old(Scn),
+        New(Scn2),
+    }
+    let mut scn = match profile {
+        Profile::New(P2::Instantiate) => G::New(Scn2::generate_instantiate(rng)),
+        Profile::New(p) => G::New(Scn2::generate(rng, p)),
+        _ => G::Old(Scn::generate(rng, profile)),
+    };
+    let header = match &scn {
+        G::Old(s) => s.header(),
+        G::New(s) => s.header(),
+    };
     let mut world = World::new(&header).ok()?;
-    let inst = world.instantiate(header.get("instantiate"), &OracleSel::Nothing);
+    // the original profiles do not judge the instantiate step (behaviour unchanged)
+    let inst_sel = match &scn {
+        G::Old(_) => OracleSel::Nothing,
+        G::New(_) => sel.clone(),
+    };
+    let inst = world.instantiate(header.get("instantiate"), &inst_sel);
+    stats.inst += 1;
+    if inst.ok {
+        stats.inst_ok += 1;
+    }
+    if let Some(name) = inst.failing_oracles().into_iter().next() {
+        return Some(Hit {
+            history: with_steps(&header, &[]),
+            step: AT_INSTANTIATE,
+            oracle: name,
+        });
+    }
     if !inst.ok {
         return None;
     }
     let mut steps: Vec<Value> = vec![];
     for i in 0..max_steps {
-        let step = scn.gen_step(rng, &world);
+        let step = match &mut scn {
+            G::Old(s) => s.gen_step(rng, &world),
+            G::New(s) => s.gen_step(rng, &world),
+        };
         let out = world.step(i, &step, sel).ok()?;
         steps.push(step);
         stats.steps += 1;
         let e = stats
             .by_kind
-            .entry(out.exec_kind.clone().unwrap_or_default())
+            .entry(out.exec_kind.clone().unwrap_or_else(|| out.kind.clone()))
             .or_insert((0, 0));
         e.0 += 1;
         if out.ok {
@@ -688,19 +764,17 @@ fn one_iteration(
         } else {
             let key = format!(
                 "{}: {}",
-                out.exec_kind.clone().unwrap_or_default(),
+                out.exec_kind.clone().unwrap_or_else(|| out.kind.clone()),
                 out.error.clone().unwrap_or_default()
             );
             *stats.errors.entry(key).or_insert(0) += 1;
         }
-        if out.ok {
-            if let Some(name) = out.failing_oracles().into_iter().next() {
-                return Some(Hit {
-                    history: with_steps(&header, &steps),
-                    step: i,
-                    oracle: name,
-                });
-            }
+        if let Some(name) = out.failing_oracles().into_iter().next() {
+            return Some(Hit {
+                history: with_steps(&header, &steps),
+                step: i,
+                oracle: name,
+            });
         }
     }
     None
@@ -722,6 +796,13 @@ fn shrink(hit: Hit) -> Hit {
         .and_then(|s| s.as_array())
         .cloned()
         .unwrap_or_default();
+    if hit.step == AT_INSTANTIATE {
+        return Hit {
+            history: with_steps(&header, &[]),
+            step: hit.step,
+            oracle: hit.oracle,
+        };
+    }
     steps.truncate(hit.step + 1);
     let mut fail_step = hit.step;
     for _pass in 0..4 {
@@ -735,6 +816,9 @@ fn shrink(hit: Hit) -> Hit {
             let mut cand = steps.clone();
             cand.remove(i);
             if let Some((fs, _)) = first_failure(&with_steps(&header, &cand), &sel) {
+                if fs == AT_INSTANTIATE {
+                    continue;
+                }
                 cand.truncate(fs + 1);
                 steps = cand;
                 fail_step = fs;
@@ -753,16 +837,20 @@ fn shrink(hit: Hit) -> Hit {
     }
 }
 
-const SEARCH_USAGE: &str = "usage: ats-replay search --oracle <name|all> --seed <u64> --iters <n> [--max-steps k] [--out <file.json>] [--profile default|convertible|fees|nonlot|markers] [--stats]";
+const SEARCH_USAGE: &str = "usage: ats-replay search --oracle <name|all|new> --seed <u64> --iters <n> [--max-steps k] [--out <file.json>] [--profile default|convertible|fees|nonlot|markers|auth|config|admission|match|migration|instantiate|auto] [--stats]
+  --oracle all   every oracle registered for the profile;  --oracle new   the nine step-level oracles registered for it
+  --profile auto cycles through the profiles registered for the oracle (see `ats-replay oracles --profiles`)";
 
 pub fn cmd_search(args: &[String]) -> i32 {
     let mut oracle: Option<String> = None;
     let mut seed: Option<u64> = None;
     let mut iters: Option<u64> = None;
-    let mut max_steps: usize = 10;
+    let mut max_steps: Option<usize> = None;
     let mut out: Option<String> = None;
     let mut profile = Profile::Default;
     let mut profile_name = "default".to_string();
+    let mut auto_profile = false;
+    let mut profile_given = false;
     let mut show_stats = false;
     let mut i = 0;
     while i < args.len() {
@@ -795,18 +883,23 @@ pub fn cmd_search(args: &[String]) -> i32 {
                     })?)
                 }
                 "--max-steps" => {
-                    max_steps = need(val)?.parse::<usize>().map_err(|_| {
+                    max_steps = Some(need(val)?.parse::<usize>().map_err(|_| {
                         eprintln!("--max-steps must be an unsigned integer");
                         2
-                    })?
+                    })?)
                 }
                 "--out" => out = Some(need(val)?),
                 "--profile" => {
                     let v = need(val)?;
-                    profile = Profile::parse(&v).ok_or_else(|| {
-                        eprintln!("unknown profile {v}\n{SEARCH_USAGE}");
-                        2
-                    })?;
+                    profile_given = true;
+                    if v == "auto" {
+                        auto_profile = true;
+                    } else {
+                        profile = Profile::parse(&v).ok_or_else(|| {
+                            eprintln!("unknown profile {v}\n{SEARCH_USAGE}");
+                            2
+                        })?;
+                    }
                     profile_name = v;
                 }
                 _ => {
@@ -828,24 +921,62 @@ pub fn cmd_search(args: &[String]) -> i32 {
             return 2;
         }
     };
-    let sel = if oracle == "all" {
-        OracleSel::All
-    } else if ORACLES.contains(&oracle.as_str()) {
-        OracleSel::One(oracle.clone())
-    } else {
+    if oracle != "all" && oracle != "new" && !ORACLES.contains(&oracle.as_str()) {
         eprintln!(
-            "unknown oracle {oracle} (known: {}, all)",
+            "unknown oracle {oracle} (known: {}, all, new)",
             ORACLES.join(", ")
         );
         return 2;
+    }
+    if auto_profile && (oracle == "all" || oracle == "new") {
+        eprintln!("--profile auto needs a single oracle\n{SEARCH_USAGE}");
+        return 2;
+    }
+    // (profile, its name, oracle selection, history length) per iteration slot
+    let plan_for = |name: &str| -> Option<(Profile, String, OracleSel, usize)> {
+        let p = Profile::parse(name)?;
+        let sel = match (oracle.as_str(), p) {
+            // the original profiles keep "all" = every oracle
+            ("all", Profile::New(_)) => OracleSel::Set(oracles_for_profile(name)),
+            ("all", _) => OracleSel::All,
+            ("new", _) => OracleSel::Set(
+                oracles_for_profile(name)
+                    .into_iter()
+                    .filter(|o| crate::props::STEP_ORACLES.iter().any(|(n, _)| n == o))
+                    .collect(),
+            ),
+            _ => OracleSel::One(oracle.clone()),
+        };
+        let steps = max_steps
+            .unwrap_or(match p {
+                Profile::New(p2) => Scn2::default_steps(p2),
+                _ => 10,
+            })
+            .max(1);
+        Some((p, name.to_string(), sel, steps))
     };
-    let max_steps = max_steps.max(1);
+    // without --profile: the original oracles keep the profile "default"; a step-level oracle
+    // cycles through the profiles registered for it
+    if !profile_given && crate::props::STEP_ORACLES.iter().any(|(n, _)| *n == oracle) {
+        auto_profile = true;
+        profile_name = "auto".to_string();
+    }
+    let plans: Vec<(Profile, String, OracleSel, usize)> = if auto_profile {
+        profiles_for(&oracle).iter().filter_map(|n| plan_for(n)).collect()
+    } else {
+        let _ = profile;
+        plan_for(&profile_name).into_iter().collect()
+    };
+    if plans.is_empty() {
+        eprintln!("no profile to run\n{SEARCH_USAGE}");
+        return 2;
+    }
     let mut stats = Stats::default();
     let print_stats = |stats: &Stats| {
         if show_stats {
             eprintln!(
-                "stats: {} step(s) generated, {} succeeded",
-                stats.steps, stats.steps_ok
+                "stats: {} instantiate(s), {} succeeded; {} step(s) generated, {} succeeded",
+                stats.inst, stats.inst_ok, stats.steps, stats.steps_ok
             );
             for (k, (n, ok)) in &stats.by_kind {
                 eprintln!("stats:   {k}: {ok}/{n} ok");
@@ -861,8 +992,22 @@ pub fn cmd_search(args: &[String]) -> i32 {
     for it in 0..iters {
         // independent, reproducible stream per iteration
         let mut rng = Rng::new(seed ^ it.wrapping_mul(0xA076_1D64_78BD_642F).rotate_left(17));
-        if let Some(hit) = one_iteration(&mut rng, profile, max_steps, &sel, &mut stats) {
+        let (profile, profile_name, sel, max_steps) = &plans[(it % plans.len() as u64) as usize];
+        let (profile, max_steps) = (*profile, *max_steps);
+        if let Some(hit) = one_iteration(&mut rng, profile, max_steps, sel, &mut stats) {
             let hit = shrink(hit);
+            // was the judged step carried out or refused?
+            let at_inst = hit.step == AT_INSTANTIATE;
+            let carried_out = run_history(&hit.history, &OracleSel::Nothing, |_| {})
+                .ok()
+                .map(|(_, r)| {
+                    if at_inst {
+                        r.instantiate.ok
+                    } else {
+                        r.steps.get(hit.step).map(|s| s.ok).unwrap_or(true)
+                    }
+                })
+                .unwrap_or(true);
             let file = out
                 .clone()
                 .unwrap_or_else(|| format!("hit-{}-seed{}.json", hit.oracle, seed));
@@ -871,17 +1016,23 @@ pub fn cmd_search(args: &[String]) -> i32 {
                 o.insert(
                     "comment".to_string(),
                     json!(format!(
-                        "found by: ats-replay search --oracle {oracle} --seed {seed} --iters {iters} --max-steps {max_steps} --profile {profile_name} (iteration {it}); oracle {} fails after step {}",
-                        hit.oracle, hit.step
+                        "found by: ats-replay search --oracle {oracle} --seed {seed} --iters {iters} --max-steps {max_steps} --profile {profile_name} (iteration {it}); oracle {} fails at {}",
+                        hit.oracle,
+                        if at_inst { "instantiate".to_string() } else { format!("step {}", hit.step) }
                     )),
                 );
-                o.insert(
-                    "asserts".to_string(),
+                let asserts = if at_inst {
                     json!([
-                        {"assert": "step_ok", "step": hit.step},
+                        {"assert": if carried_out { "instantiate_ok" } else { "instantiate_err" }},
+                        {"assert": "oracle_fails", "after_step": -1, "oracle": hit.oracle}
+                    ])
+                } else {
+                    json!([
+                        {"assert": if carried_out { "step_ok" } else { "step_err" }, "step": hit.step},
                         {"assert": "oracle_fails", "after_step": hit.step, "oracle": hit.oracle}
-                    ]),
-                );
+                    ])
+                };
+                o.insert("asserts".to_string(), asserts);
             }
             let text = serde_json::to_string_pretty(&h).unwrap_or_else(|_| h.to_string());
             if let Err(e) = std::fs::write(&file, text + "\n") {
@@ -889,7 +1040,13 @@ pub fn cmd_search(args: &[String]) -> i32 {
                 return 2;
             }
             print_stats(&stats);
-            println!("HIT oracle={} step={} file={}", hit.oracle, hit.step, file);
+            println!(
+                "HIT oracle={} step={} file={} iteration={}",
+                hit.oracle,
+                if at_inst { "instantiate".to_string() } else { hit.step.to_string() },
+                file,
+                it
+            );
             return 1;
         }
     }
